@@ -508,6 +508,21 @@ def gen_displ(ctx):
         elif r < 0.27:
             a = n + rng.randint(0, 2)
             cls = "missing-key"
+        elif r < 0.45 and len(table[a]) == 2:
+            # an atom (almost) on the line through its two neighbours, in a generic orientation: straight segments,
+            # bends of 0 … 1e-7 rad.  The displacement must be perpendicular to the line through the two neighbours
+            # (seed C07-10: normal of the "angle plane" = rounding noise amplified by 1/sin(angle))
+            k0, k1 = table[a][0][0], table[a][1][0]
+            d = [rng.gauss(0, 1) for _ in range(3)]
+            L = math.sqrt(sum(c * c for c in d)) or 1.0
+            d = [c / L for c in d]
+            e = [rng.gauss(0, 1) for _ in range(3)]
+            bend = rng.choice([0.0, 1e-12, 1e-9, 1e-8, 1e-7])
+            base = [rng.uniform(-3, 3) for _ in range(3)] if rng.random() < 0.7 else [0.0, 0.0, 0.0]
+            pos[a] = base
+            pos[k0] = [base[j] + 0.31 * d[j] for j in range(3)]
+            pos[k1] = [base[j] - 0.27 * d[j] + bend * e[j] for j in range(3)]
+            cls = "near-linear-2"
         elif r < 0.37 and len(table[a]) >= 3:
             # three or more neighbours whose cross product is SMALL but not degenerate: the same geometry in
             # other length units (coordinates x 1e-4 … 1e-2), or a flat triangle with the third neighbour
